@@ -2,7 +2,7 @@
    Values are integer ids chosen by the harness (self leaf i -> i, operand leaves -> 100+j / 200+j, default -> -1). *)
 From Coq Require Import ZArith List String Bool.
 Import ListNotations.
-From TD Require Import Lib.Sexp Model.Dual Model.C09_Align Model.C09_Shape Model.C09_Reduce.
+From TD Require Import Lib.Sexp Model.Dual Model.C09_Align Model.C09_Shape Model.C09_Reduce Model.C09_Lazy.
 Open Scope string_scope.
 
 Definition dec_items (s : sexp) : option (list (string * Z)) := dec_list (dec_pair dec_str dec_Z) s.
@@ -136,8 +136,63 @@ Definition dec_cmp (s : sexp) : option cmp :=
 Definition enc_cmp (c : cmp) : sexp :=
   SA (match c with CLt => "__lt__" | CLe => "__le__" | CGt => "__gt__" | CGe => "__ge__" | CEq => "__eq__" | CNe => "__ne__" end).
 
+(* lazy stacks: members = list of item lists; a member-indexed key is printed back as (i key) *)
+Definition dec_lazy (s : sexp) : option (@lazy Z) := dec_list dec_items s.
+Definition dec_lazy_operand (s : sexp) : option (@lazy_operand Z) :=
+  match s with
+  | SA "scalar" => Some LOpScalar
+  | SL [SA "lazy"; l] => option_map LOpLazy (dec_lazy l)
+  | _ => None
+  end.
+Definition enc_lazy_result (r : lazy_result (Z * @rhs Z)) : sexp :=
+  match r with
+  | LzMembers ms => SL [SA "members"; SL (map enc_bin ms)]
+  | LzStray ms st => SL [SA "stray"; SL (map enc_bin ms); enc_bin st]
+  end.
+Definition enc_lplan (p : lplan) : sexp :=
+  match p with
+  | LDirect => SA "direct"
+  | LMember B q => SL [SA "member"; enc_shape B; enc_bplan q]
+  | LDense q => SL [SA "dense"; enc_bplan q]
+  | LUnsliced B => SL [SA "unsliced"; enc_shape B]
+  | LRaised => SA "raise"
+  end.
+Definition enc_sm (p : sm_plan) : sexp :=
+  match p with
+  | SmDense d => SL [SA "dense"; enc_nat d]
+  | SmMember d => SL [SA "member"; enc_nat d]
+  | SmLeaf d => SL [SA "leaf"; enc_nat d]
+  | SmRaised => SA "raise"
+  end.
+
 Definition dispatch (cmd : string) (args : list sexp) : option sexp :=
   match cmd, args with
+  | "lazybinary", [f; d; s; o] =>
+      match dec_family f, dec_dflt d, dec_lazy s, dec_lazy_operand o with
+      | Some f, Some d, Some s, Some o => Some (enc_res enc_lazy_result (lazy_binary_plan fixed_lazy fixed_D49 f s o d))
+      | _, _, _, _ => None
+      end
+  | "lazybcast", [bs; sd; os] =>
+      match dec_shape bs, dec_nat sd, dec_list dec_okind os with
+      | Some bs, Some sd, Some os => Some (enc_lplan (lazy_maybe_broadcast fixed_lazy bs sd os))
+      | _, _, _ => None
+      end
+  | "lazysoftmax", [nb; sd; SZ dim] =>
+      match dec_nat nb, dec_nat sd with
+      | Some nb, Some sd => Some (enc_sm (lazy_softmax fixed_lazy nb sd dim))
+      | _, _ => None
+      end
+  | "lazyreduce", [op; bs; names; dim; kd] =>
+      match dec_redop op, dec_shape bs, dec_names names, dec_dim dim, dec_kd kd with
+      | Some op, Some bs, Some names, Some dim, Some kd => Some (enc_res enc_red (lazy_front fixed_reduce op bs names dim kd))
+      | _, _, _, _, _ => None
+      end
+  | "memberview", [s; B; sd; i; feat; p] =>
+      match dec_shape s, dec_shape B, dec_nat sd, dec_nat i, dec_shape feat, dec_list dec_nat p with
+      | Some s, Some B, Some sd, Some i, Some feat, Some p =>
+          Some (enc_res (fun v => SL [enc_shape (vshape v); enc_list enc_nat (vidx v p)]) (member_operand_view s B sd i feat))
+      | _, _, _, _, _, _ => None
+      end
   | "binary", [f; cl; d; s; o] =>
       match dec_family f, dec_bool cl, dec_dflt d, dec_items s, dec_operand o with
       | Some f, Some cl, Some d, Some s, Some o => Some (enc_res enc_bin (binary_plan fixed_D49 f cl s o d))
